@@ -73,3 +73,15 @@ Definition run_c04_pool (i : (Z * Z * (Z * Z * Z) * (bool * bool * bool)) * list
     | Err c => [1; c]
     | Panic => [2]
     end end.
+
+(* ---- C14: the Simulation query in the state reached by a history ----------------------------------- *)
+From WW Require Export Stable3Quotes.
+Definition sim_obs (r : outcome swapc) : list Z :=
+  match r with Ok s => [0; s_ret s; s_spread s; s_swapfee s; s_protfee s; s_burnfee s] | _ => [1] end.
+(* input: (pool parameters as for run_c04_pool, history so far, (offer index, ask index, offer amount)) *)
+Definition run_c14_sim3 (i : (Z * Z * (Z * Z * Z) * (bool * bool * bool)) * list op * (Z * Z * Z)) : list Z :=
+  match i with ((amp, h, (pf, sf, bf), kinds), l, (oi, aj, x)) =>
+    match init_pool amp h (mkFees pf sf bf) kinds 4 with
+    | Ok p => sim_obs (simulate3 (run p l) oi aj x)
+    | _ => [1]
+    end end.
